@@ -1,11 +1,12 @@
 (* C16 - A written CDB file returns every value, in order, and nothing else.
    This file holds only theorem statements closed by [exact]; proofs are in
    Proofs/CdbTable.v (probing invariant), Proofs/CdbFind.v (reader), Proofs/Cdb.v
-   (writer as a whole), Proofs/CdbText.v (dump / make text).
+   (writer as a whole), Proofs/CdbText.v (dump / make text), Proofs/CdbBytes.v, CdbRead.v,
+   CdbRefine.v (flat byte image: layout, byte-level reads, refinement of the reader and of Dump).
    All theorems hold for an ARBITRARY hash function H (so every pattern of table and
    start-slot collisions, full-hash collisions and probe wrap-around is covered) under
    the guard fits32 (file size < 2^32; beyond it uint32 positions wrap in the Go code). *)
-From DnsV Require Import Base.Bytes Spec.Cdb Model.Cdb Proofs.Cdb Proofs.CdbText.
+From DnsV Require Import Base.Bytes Spec.Cdb Model.Cdb Proofs.Cdb Proofs.CdbText Proofs.CdbRefine.
 Open Scope N_scope.
 
 (* the writer terminates with an image (no table ever lacks a free slot) *)
@@ -31,6 +32,30 @@ Theorem C16_dump_make : forall (H : bytes -> N) kvs img,
   fits32 kvs -> write H kvs = Ok img -> make H (dump img) = Ok img.
 Proof. exact dump_make. Qed.
 Print Assumptions C16_dump_make.
+
+(* byte level: the reader that follows cdb.go read by read (u32 little endian numbers at
+   byte offsets, slice bounds, uint32 arithmetic), run on the serialised file, returns
+   exactly the values written under the key, then EOF.  H k < 2^32 because hashes are
+   stored in 4 bytes. *)
+Theorem C16_serialize_read : forall (H : bytes -> N) kvs img,
+  (forall k, H k < 4294967296) -> fits32 kvs -> write H kvs = Ok img ->
+  forall key, bfind_all H (serialize img) key = Ok (spec_vals kvs key).
+Proof. exact serialize_read. Qed.
+Print Assumptions C16_serialize_read.
+
+(* byte level: Dump (stream reader: eod from the first header word, records while pos < eod)
+   prints exactly the structured dump of the records written *)
+Theorem C16_serialize_dump : forall (H : bytes -> N) kvs img,
+  fits32 kvs -> write H kvs = Ok img -> bdump (serialize img) = Ok (dump img).
+Proof. exact serialize_dump. Qed.
+Print Assumptions C16_serialize_dump.
+
+(* byte level: dumping the file and rebuilding it from the dump reproduces the file *)
+Theorem C16_dump_make_bytes : forall (H : bytes -> N) kvs img,
+  fits32 kvs -> write H kvs = Ok img ->
+  exists text, bdump (serialize img) = Ok text /\ bmake H text = Ok (serialize img).
+Proof. exact bytes_dump_make. Qed.
+Print Assumptions C16_dump_make_bytes.
 
 (* the hypotheses are satisfiable for non-trivial values (real cdb hash, repeated key,
    empty key, empty value, identical pair twice, absent key) *)
